@@ -236,7 +236,8 @@ claim(
     "Decides that every Z3 handle / conversion cache of the backends lives in per-thread storage, that every Z3 "
     "entry point that cannot infer its context receives this thread's context (or an argument's), that process-wide "
     "mutable objects (containers, counters, ctypes cells) are a classified list, that per-thread slots are filled "
-    "with objects created for that thread, and that a frontend's native solver lives in its own threading.local().",
+    "with objects created for that thread, that a frontend's native solver lives in its own threading.local(), and "
+    "that process-wide weak-valued caches are read in one step (get / KeyError handler / lock), never check-then-get.",
     "Not decided: answer equality under real scheduling, races inside Z3. " + GENERIC_NOTE,
 )
 claim(
@@ -287,7 +288,7 @@ claim(
     "value-determining field copy() carries, the bottom flag included (members live in a Python set and == is always "
     "truthy), and that value-set order comparisons "
     "answer Maybe with != the complement of == and per-region arithmetic applied to every region, and that where "
-    "per-region offsets of two value-sets meet they are taken under one region key, never by position in the maps.",
+    "per-region offsets of two value-sets meet they are taken under one region key, never by position in the maps, and that union / widen record a plain operand also for a value set without regions.",
     "Not decided: per-member numerics (inherited from C21), collapse/normalisation. " + GENERIC_NOTE,
 )
 claim(
